@@ -182,4 +182,341 @@ theorem nohost_clears_exactly (be : Backend) (ver : Nat) (hver : VerOK ver) (v :
 
 example : (0xC0A80105 : Nat) / 2 ^ (32 - 24) * 2 ^ (32 - 24) = 0xC0A80100 := by decide
 
+/-- without a version a tuple is IPv4 when value and prefix fit IPv4, else IPv6 -/
+theorem tuple_implicit (be : Backend) (v p : Nat) :
+    (v < 2 ^ 32 → p ≤ 32 → ipNetwork be (.tuple v p) false none 0 = .ok ⟨4, v, p⟩) ∧
+    (v < 2 ^ 128 → p ≤ 128 → ¬ (v < 2 ^ 32 ∧ p ≤ 32) → ipNetwork be (.tuple v p) false none 0 = .ok ⟨6, v, p⟩) := by
+  have hfl : hasFlag 0 NOHOST = false := by decide
+  have m4 : maxInt 4 = 4294967295 := by decide
+  have w4 : width 4 = 32 := rfl
+  have m6 : maxInt 6 = 340282366920938463463374607431768211455 := by decide
+  have w6 : width 6 = 128 := rfl
+  constructor
+  · intro hv hp
+    have h1 : ¬ ¬ (0 ≤ (v : Int) ∧ (v : Int) ≤ (maxInt 4 : Int)) := by
+      intro h; apply h; rw [m4]; constructor <;> omega
+    have h2 : ¬ ¬ (0 ≤ (p : Int) ∧ (p : Int) ≤ (width 4 : Int)) := by
+      intro h; apply h; rw [w4]; constructor <;> omega
+    unfold ipNetwork parseIpNetwork
+    simp only [h1, h2, if_false, Int.toNat_natCast, applyNohost_ok 4 (Or.inl rfl) 0 v p (by rw [w4]; exact hp), hfl,
+      Bool.false_eq_true]
+  · intro hv hp hno
+    have h1 : ¬ ¬ (0 ≤ (v : Int) ∧ (v : Int) ≤ (maxInt 6 : Int)) := by
+      intro h; apply h; rw [m6]; constructor <;> omega
+    have h2 : ¬ ¬ (0 ≤ (p : Int) ∧ (p : Int) ≤ (width 6 : Int)) := by
+      intro h; apply h; rw [w6]; constructor <;> omega
+    have h4 : parseIpNetwork be 4 (.tuple v p) false 0 = .error .addrFormat := by
+      unfold parseIpNetwork
+      by_cases hv4 : v < 2 ^ 32
+      · have hp4 : ¬ (p ≤ 32) := fun h => hno ⟨hv4, h⟩
+        have g1 : ¬ ¬ (0 ≤ (v : Int) ∧ (v : Int) ≤ (maxInt 4 : Int)) := by
+          intro h; apply h; rw [m4]; constructor <;> omega
+        have g2 : ¬ (0 ≤ (p : Int) ∧ (p : Int) ≤ (width 4 : Int)) := by
+          rw [w4]; omega
+        simp only [g1, g2, if_false, not_false_eq_true, if_true]
+      · have g1 : ¬ (0 ≤ (v : Int) ∧ (v : Int) ≤ (maxInt 4 : Int)) := by
+          rw [m4]; omega
+        simp only [g1, not_false_eq_true, if_true]
+    have h6 : parseIpNetwork be 6 (.tuple v p) false 0 = .ok (v, p) := by
+      unfold parseIpNetwork
+      simp only [h1, h2, if_false, Int.toNat_natCast, applyNohost_ok 6 (Or.inr rfl) 0 v p (by rw [w6]; exact hp), hfl,
+        Bool.false_eq_true]
+    unfold ipNetwork
+    simp only [h4, h6]
+
+/-- an IPv4 text is no IPv6 network address -/
+theorem parse6_v4text (be : Backend) (v : Nat) (hv : v < 2 ^ 32) (rest : Option (List Char))
+    (hrest : ∀ t, rest = some t → t.contains '/' = false) (fl : Nat) :
+    parseIpNetwork be 6 (.str (intToStr be 4 v ++ (match rest with | none => [] | some t => '/' :: t))) false fl
+      = .error .addrFormat := by
+  have hns := addr_noslash be 4 (Or.inl rfl) v hv
+  have hx : ipAddress be (intToStr be 4 v) (some 6) INET_PTON = .error .addrFormat :=
+    (C01.no_cross_family be INET_PTON).1 v hv
+  have h64 : ¬ ((6 : Nat) = 4) := by decide
+  unfold parseIpNetwork
+  cases rest with
+  | none =>
+    simp only [List.append_nil, Bool.false_eq_true, if_false, splitSlash_none _ hns, hx, h64]
+  | some t =>
+    have ht := hrest t rfl
+    simp only [Bool.false_eq_true, if_false, splitSlash_app _ t hns, ht, hx, h64]
+
+/-- **Rejections.**  (1) a decimal prefix beyond the width, (2) a tuple whose value or prefix is
+    out of range (negative or too large), (3) a mask text that is neither a netmask nor a
+    hostmask: each raises AddrFormatError, with explicit or detected version. -/
+theorem rejects (be : Backend) (ver : Nat) (hver : VerOK ver) (v : Nat) (hv : v < 2 ^ width ver)
+    (pver : Option Nat) (hpver : pver = none ∨ pver = some ver) (fl : Nat) :
+    (∀ q, q > width ver →
+      ipNetwork be (.str (intToStr be ver v ++ '/' :: dec q)) false pver fl = .error .addrFormat) ∧
+    (∀ value prefixlen : Int, ¬ (0 ≤ value ∧ value ≤ (maxInt ver : Int)) ∨ ¬ (0 ≤ prefixlen ∧ prefixlen ≤ (width ver : Int)) →
+      ipNetwork be (.tuple value prefixlen) false (some ver) fl = .error .addrFormat) ∧
+    (∀ m, m < 2 ^ width ver → isNetmask (width ver) m = false → isHostmask m = false →
+      ipNetwork be (.str (intToStr be ver v ++ '/' :: intToStr be ver m)) false pver fl = .error .addrFormat) := by
+  have hns := addr_noslash be ver hver v hv
+  have hver' : ver = 4 ∨ ver = 6 := hver
+  -- a string whose own-family parse is AddrFormatError, and whose other-family parse too
+  have lift : ∀ T : List Char, T.contains '/' = false →
+      parseIpNetwork be ver (.str (intToStr be ver v ++ '/' :: T)) false fl = .error .addrFormat →
+      ipNetwork be (.str (intToStr be ver v ++ '/' :: T)) false pver fl = .error .addrFormat := by
+    intro T hT h
+    unfold ipNetwork
+    rcases hpver with hp | hp <;> subst hp
+    · rcases hver' with e | e <;> subst e
+      · have h6 := parse6_v4text be v hv (some T) (by intro t ht; cases ht; exact hT) fl
+        simp only [h, h6]
+      · have h4 := parse4_v6text be v hv (some T) (by intro t ht; cases ht; exact hT) fl
+        simp only [h4, h]
+    · simp only [if_pos hver', h]
+  refine ⟨?_, ?_, ?_⟩
+  · intro q hq
+    apply lift _ (C03L.slash_not_in_dec q)
+    have hrange : ¬ (0 ≤ (q : Int) ∧ (q : Int) ≤ (width ver : Int)) := by omega
+    unfold parseIpNetwork
+    simp only [Bool.false_eq_true, if_false, splitSlash_app _ _ hns, C03L.slash_not_in_dec q, addr_rt be ver hver v hv,
+      resolve_dec, hrange, not_false_eq_true, if_true]
+  · intro value prefixlen h
+    unfold ipNetwork
+    simp only [if_pos hver']
+    unfold parseIpNetwork
+    rcases h with h | h
+    · simp only [h, not_false_eq_true, if_true]
+    · by_cases h1 : (0 ≤ value ∧ value ≤ (maxInt ver : Int))
+      · have hnn : ¬ ¬ (0 ≤ value ∧ value ≤ (maxInt ver : Int)) := fun hn => hn h1
+        simp only [hnn, h, if_false, not_false_eq_true, if_true]
+      · simp only [h1, not_false_eq_true, if_true]
+  · intro m hm hn hh
+    have hT := addr_noslash be ver hver m hm
+    apply lift _ hT
+    have hres : resolvePrefix be ver (some (intToStr be ver m)) = .error .addrFormat := by
+      rw [resolve_mask be ver hver m hm, hn, hh]; rfl
+    unfold parseIpNetwork
+    simp only [Bool.false_eq_true, if_false, splitSlash_app _ _ hns, hT, addr_rt be ver hver v hv, hres]
+
+example : isNetmask 32 0xff00ff00 = false ∧ isHostmask 0xff00ff00 = false ∧ 0xff00ff00 < 2 ^ width 4 := by decide
+
+/-- the documented class rules -/
+def classOf (o : Nat) : Nat :=
+  if o ≤ 127 then 8 else if o ≤ 191 then 16 else if o ≤ 223 then 24 else if o ≤ 239 then 4 else 32
+
+/-- **Classful rules**: `classful_prefix` is exactly 0-127 → 8, 128-191 → 16, 192-223 → 24,
+    224-239 → 4, 240-255 → 32, and IndexError outside 0..255. -/
+theorem classful_rules (o : Int) :
+    classfulPrefix o = if 0 ≤ o ∧ o ≤ 255 then some (classOf o.toNat) else none := by
+  unfold classfulPrefix classOf
+  by_cases h : 0 ≤ o ∧ o ≤ 255
+  · simp only [h, not_true_eq_false, if_false, and_self, if_true]
+    by_cases h1 : o ≤ 127
+    · have : o.toNat ≤ 127 := by omega
+      simp [h.1, h1, this]
+    · by_cases h2 : o ≤ 191
+      · have a : ¬ o.toNat ≤ 127 := by omega
+        have b : o.toNat ≤ 191 := by omega
+        have c : (128 : Int) ≤ o := by omega
+        simp [h1, h2, a, b, c]
+      · by_cases h3 : o ≤ 223
+        · have a : ¬ o.toNat ≤ 127 := by omega
+          have b : ¬ o.toNat ≤ 191 := by omega
+          have c : o.toNat ≤ 223 := by omega
+          have d : (192 : Int) ≤ o := by omega
+          simp [h1, h2, h3, a, b, c, d]
+        · by_cases h4 : o ≤ 239
+          · have a : ¬ o.toNat ≤ 127 := by omega
+            have b : ¬ o.toNat ≤ 191 := by omega
+            have c : ¬ o.toNat ≤ 223 := by omega
+            have d : o.toNat ≤ 239 := by omega
+            have e : (224 : Int) ≤ o := by omega
+            simp [h1, h2, h3, h4, a, b, c, d, e]
+          · have a : ¬ o.toNat ≤ 127 := by omega
+            have b : ¬ o.toNat ≤ 191 := by omega
+            have c : ¬ o.toNat ≤ 223 := by omega
+            have d : ¬ o.toNat ≤ 239 := by omega
+            simp [h1, h2, h3, h4, a, b, c, d]
+  · simp [h]
+
+/-- a single octet `a` abbreviates `a.0.0.0/<class prefix>`; with `implicit_prefix=True` the
+    network is `⟨4, a·2^24, class prefix⟩` -/
+theorem abbrev_single (be : Backend) (a : Nat) (ha : a < 256) :
+    cidrAbbrevToVerbose (dec a) = dec a ++ ".0.0.0/".toList ++ dec (classOf a) ∧
+    ipNetwork be (.str (dec a)) true (some 4) 0 = .ok ⟨4, a * 16777216, classOf a⟩ := by
+  have hcol : (dec a).contains ':' = false := contains_false_of_not_mem (colon_not_in_dec a)
+  have hne : (dec a == []) = false := by
+    cases h : dec a with
+    | nil => exact absurd h (dec_ne_nil a)
+    | cons _ _ => rfl
+  have hcls : classfulPrefix (a : Int) = some (classOf a) := by
+    rw [classful_rules]
+    have : 0 ≤ (a : Int) ∧ (a : Int) ≤ 255 := by omega
+    simp [this]
+  have habb : cidrAbbrevToVerbose (dec a) = dec a ++ ".0.0.0/".toList ++ dec (classOf a) := by
+    unfold cidrAbbrevToVerbose
+    simp only [hcol, hne, Bool.or_self, Bool.false_eq_true, if_false, pyInt_dec, hcls, showInt_nat]
+  refine ⟨habb, ?_⟩
+  have w4 : width 4 = 32 := rfl
+  have hcl : classOf a ≤ width 4 := by
+    rw [w4]; unfold classOf; split <;> (try split) <;> (try split) <;> (try split) <;> omega
+  have hv : a * 16777216 < 2 ^ width 4 := by rw [w4]; omega
+  have htext : dec a ++ ".0.0.0/".toList ++ dec (classOf a) = intToStr be 4 (a * 16777216) ++ '/' :: dec (classOf a) := by
+    show _ = ntoa (a * 16777216) ++ _
+    rw [ntoa_eq]
+    have e0 : a * 16777216 / 16777216 = a := by omega
+    have e1 : a * 16777216 / 65536 % 256 = 0 := by omega
+    have e2 : a * 16777216 / 256 % 256 = 0 := by omega
+    have e3 : a * 16777216 % 256 = 0 := by omega
+    rw [e0, e1, e2, e3]
+    simp [List.intercalate, dec]
+  have hparse : parseIpNetwork be 4 (.str (dec a)) true 0 =
+      parseIpNetwork be 4 (.str (cidrAbbrevToVerbose (dec a))) false 0 := by
+    unfold parseIpNetwork; simp
+  unfold ipNetwork
+  have h44 : (4 : Nat) = 4 ∨ (4 : Nat) = 6 := Or.inl rfl
+  simp only [if_pos h44, hparse, habb, htext]
+  rw [parse_with_prefix be 4 (Or.inl rfl) _ hv _ _ (C03L.slash_not_in_dec _) (resolve_dec be 4 _) hcl,
+    applyNohost_ok 4 (Or.inl rfl) 0 _ _ hcl]
+  rfl
+
+example : classOf 10 = 8 ∧ classOf 128 = 16 ∧ classOf 192 = 24 ∧ classOf 224 = 4 ∧ classOf 240 = 32 := by decide
+
+/-- a string that is not a strict dotted quad but expands (`expand_partial_address`) to one -/
+theorem net_of_partial (be : Backend) (txt : List Char) (val p : Nat)
+    (h1 : txt.contains '/' = false) (h2 : inetPton4 be txt = none)
+    (h3 : expandPartialAddress txt = .ok (ntoa val)) (hval : val < 2 ^ 32) (hp : p ≤ 32) :
+    ipNetwork be (.str (txt ++ '/' :: dec p)) false (some 4) 0 = .ok ⟨4, val, p⟩ := by
+  have hw : width 4 = 32 := rfl
+  have hfl : hasFlag 0 NOHOST = false := by decide
+  have hip : ipAddress be txt (some 4) INET_PTON = .error .addrFormat := by
+    have : ¬ ((4 : Nat) ≠ 4 ∧ (4 : Nat) ≠ 6) := by decide
+    have hpt : hasFlag INET_PTON INET_PTON = true := by decide
+    have hzf : hasFlag INET_PTON ZEROFILL = false := by decide
+    simp only [ipAddress, this, if_false, h1, Bool.false_eq_true, strToInt, if_true, strToInt4, hpt, hzf, h2]
+  have hrt : ipAddress be (ntoa val) (some 4) INET_PTON = .ok ⟨4, val⟩ :=
+    addr_rt be 4 (Or.inl rfl) val (by rw [hw]; exact hval)
+  have hrange : ¬ ¬ (0 ≤ (p : Int) ∧ (p : Int) ≤ (width 4 : Int)) := by
+    intro h; apply h; rw [hw]; constructor <;> omega
+  have h44 : (4 : Nat) = 4 ∨ (4 : Nat) = 6 := Or.inl rfl
+  unfold ipNetwork
+  simp only [if_pos h44]
+  unfold parseIpNetwork
+  simp only [Bool.false_eq_true, if_false, splitSlash_app _ _ h1, C03L.slash_not_in_dec p, hip, if_true, h3, hrt,
+    resolve_dec, hrange, Int.toNat_natCast, applyNohost_ok 4 (Or.inl rfl) 0 val p (by rw [hw]; exact hp), hfl]
+  simp
+
+theorem pton4_short (be : Backend) (toks : List (List Char)) (hd : ∀ t ∈ toks, '.' ∉ t) (hne : toks ≠ [])
+    (hlen : toks.length ≠ 4) : inetPton4 be (['.'].intercalate toks) = none := by
+  have hs : (['.'].intercalate toks).splitOn '.' = toks := List.splitOn_intercalate _ hd hne
+  have hp : Text4.pton4 (['.'].intercalate toks) = none := by
+    unfold Text4.pton4
+    rw [hs]
+    match toks, hlen with
+    | [], _ => rfl
+    | [_], _ => rfl
+    | [_, _], _ => rfl
+    | [_, _, _], _ => rfl
+    | [_, _, _, _], h => exact absurd rfl h
+    | _ :: _ :: _ :: _ :: _ :: _, _ => rfl
+  cases be
+  · exact hp
+  · show FbSocket.pton4 _ = none
+    rw [fb_pton4_eq]; exact hp
+
+/-- **Partial IPv4 addresses expand by octet padding**: one, two or three decimal octets
+    (`a`, `a.b`, `a.b.c`) followed by '/p' denote `a.0.0.0/p`, `a.b.0.0/p`, `a.b.c.0/p`. -/
+theorem partial_expands (be : Backend) (a b c p : Nat) (ha : a < 256) (hb : b < 256) (hc : c < 256) (hp : p ≤ 32) :
+    ipNetwork be (.str (dec a ++ '/' :: dec p)) false (some 4) 0 = .ok ⟨4, a * 16777216, p⟩ ∧
+    ipNetwork be (.str (dec a ++ '.' :: dec b ++ '/' :: dec p)) false (some 4) 0
+      = .ok ⟨4, a * 16777216 + b * 65536, p⟩ ∧
+    ipNetwork be (.str (dec a ++ '.' :: (dec b ++ '.' :: dec c) ++ '/' :: dec p)) false (some 4) 0
+      = .ok ⟨4, a * 16777216 + b * 65536 + c * 256, p⟩ := by
+  have hda := C03L.dot_not_in_dec a
+  have hdb := C03L.dot_not_in_dec b
+  have hdc := C03L.dot_not_in_dec c
+  have ntoa_of : ∀ x y z : Nat, x < 256 → y < 256 → z < 256 →
+      ntoa (x * 16777216 + y * 65536 + z * 256) = dec x ++ '.' :: (dec y ++ '.' :: (dec z ++ '.' :: dec 0)) := by
+    intro x y z hx hy hz
+    rw [ntoa_eq]
+    have e0 : (x * 16777216 + y * 65536 + z * 256) / 16777216 = x := by omega
+    have e1 : (x * 16777216 + y * 65536 + z * 256) / 65536 % 256 = y := by omega
+    have e2 : (x * 16777216 + y * 65536 + z * 256) / 256 % 256 = z := by omega
+    have e3 : (x * 16777216 + y * 65536 + z * 256) % 256 = 0 := by omega
+    rw [e0, e1, e2, e3]
+    simp [List.intercalate]
+  have noslash : ∀ t : List Char, (∀ ch ∈ t, ch = '.' ∨ ∃ n, ch ∈ dec n) → t.contains '/' = false := by
+    intro t ht
+    apply contains_false_of_not_mem
+    intro hm
+    rcases ht _ hm with e | ⟨n, hn⟩
+    · exact absurd e (by decide)
+    · exact (dec_decCh n _ hn).2.2.2.2.2.2.1 rfl
+  refine ⟨?_, ?_, ?_⟩
+  · -- a
+    apply net_of_partial be (dec a) _ p (C03L.slash_not_in_dec a)
+    · have := pton4_short be [dec a] (by intro t ht; simp at ht; subst ht; exact hda) (by simp) (by simp)
+      simpa [List.intercalate] using this
+    · have hcol : (dec a).contains ':' = false := contains_false_of_not_mem (C03L.colon_not_in_dec a)
+      have hdot : (dec a).contains '.' = false := contains_false_of_not_mem hda
+      have := ntoa_of a 0 0 ha (by decide) (by decide)
+      simp only [Nat.zero_mul, Nat.add_zero] at this
+      unfold expandPartialAddress
+      simp only [hcol, hdot, Bool.false_eq_true, if_false, pyInt_dec, Option.map_some, showInt_nat]
+      simp [this, List.intercalate, show dec 0 = ['0'] from by decide]
+    · omega
+    · exact hp
+  · -- a.b
+    have htxt : dec a ++ '.' :: dec b = ['.'].intercalate [dec a, dec b] := by simp [List.intercalate]
+    have hns : (dec a ++ '.' :: dec b).contains '/' = false := by
+      apply noslash; intro ch hch
+      simp only [List.mem_append, List.mem_cons] at hch
+      rcases hch with h | h | h
+      · exact Or.inr ⟨a, h⟩
+      · exact Or.inl h
+      · exact Or.inr ⟨b, h⟩
+    apply net_of_partial be _ _ p hns
+    · rw [htxt]
+      exact pton4_short be _ (by intro t ht; simp at ht; rcases ht with e | e <;> subst e <;> assumption) (by simp) (by simp)
+    · have hcol : (dec a ++ '.' :: dec b).contains ':' = false := by
+        apply contains_false_of_not_mem
+        simp only [List.mem_append, List.mem_cons, not_or]
+        exact ⟨C03L.colon_not_in_dec a, by decide, C03L.colon_not_in_dec b⟩
+      have hdot : (dec a ++ '.' :: dec b).contains '.' = true := by simp
+      have hsplit : (dec a ++ '.' :: dec b).splitOn '.' = [dec a, dec b] := by
+        rw [htxt]; exact List.splitOn_intercalate _ (by intro t ht; simp at ht; rcases ht with e | e <;> subst e <;> assumption) (by simp)
+      have := ntoa_of a b 0 ha hb (by decide)
+      simp only [Nat.zero_mul, Nat.add_zero] at this
+      unfold expandPartialAddress
+      simp only [hcol, hdot, Bool.false_eq_true, if_false, if_true, hsplit, List.mapM_cons, List.mapM_nil, pyInt_dec,
+        Option.map_some, showInt_nat, Option.bind_eq_bind, Option.bind_some, Option.pure_def]
+      simp [this, List.intercalate, show dec 0 = ['0'] from by decide]
+    · omega
+    · exact hp
+  · -- a.b.c
+    have htxt : dec a ++ '.' :: (dec b ++ '.' :: dec c) = ['.'].intercalate [dec a, dec b, dec c] := by
+      simp [List.intercalate]
+    have hns : (dec a ++ '.' :: (dec b ++ '.' :: dec c)).contains '/' = false := by
+      apply noslash; intro ch hch
+      simp only [List.mem_append, List.mem_cons] at hch
+      rcases hch with h | h | h | h | h
+      · exact Or.inr ⟨a, h⟩
+      · exact Or.inl h
+      · exact Or.inr ⟨b, h⟩
+      · exact Or.inl h
+      · exact Or.inr ⟨c, h⟩
+    apply net_of_partial be _ _ p hns
+    · rw [htxt]
+      exact pton4_short be _ (by intro t ht; simp at ht; rcases ht with e | e | e <;> subst e <;> assumption) (by simp) (by simp)
+    · have hcol : (dec a ++ '.' :: (dec b ++ '.' :: dec c)).contains ':' = false := by
+        apply contains_false_of_not_mem
+        simp only [List.mem_append, List.mem_cons, not_or]
+        exact ⟨C03L.colon_not_in_dec a, by decide, C03L.colon_not_in_dec b, by decide, C03L.colon_not_in_dec c⟩
+      have hdot : (dec a ++ '.' :: (dec b ++ '.' :: dec c)).contains '.' = true := by simp
+      have hsplit : (dec a ++ '.' :: (dec b ++ '.' :: dec c)).splitOn '.' = [dec a, dec b, dec c] := by
+        rw [htxt]; exact List.splitOn_intercalate _ (by intro t ht; simp at ht; rcases ht with e | e | e <;> subst e <;> assumption) (by simp)
+      have := ntoa_of a b c ha hb hc
+      unfold expandPartialAddress
+      simp only [hcol, hdot, Bool.false_eq_true, if_false, if_true, hsplit, List.mapM_cons, List.mapM_nil, pyInt_dec,
+        Option.map_some, showInt_nat, Option.bind_eq_bind, Option.bind_some, Option.pure_def]
+      simp [this, List.intercalate, show dec 0 = ['0'] from by decide]
+    · omega
+    · exact hp
+
+example : (192 : Nat) * 16777216 + 168 * 65536 = 0xC0A80000 := by decide
+
 end NV.C03
